@@ -60,11 +60,11 @@ def plan(tier):
         return dict(n_cases=50 * len(CLASSES), shards=4, classes=CLASSES, timeout_s=600,
                     min_evals={"write_bytes": 3800, "read_matches_bytes": 5500, "roundtrip": 3000, "raw_read": 1600,
                                "convert_voxels": 780, "overwrite_refusal": 120},
-                    min_anchor_calls={"cryomap.em2mrc": 300, "cryomap.mrc2em": 300})
+                    min_anchor_calls={"cryomap.em2mrc": 300, "cryomap.mrc2em": 300}, min_known={"int-min-negation-wraps": 10})
     return dict(n_cases=2000 * len(CLASSES), shards=16, classes=CLASSES, timeout_s=3000,
                 min_evals={"write_bytes": 120000, "read_matches_bytes": 160000, "roundtrip": 90000, "raw_read": 36000,
                            "convert_voxels": 30000, "overwrite_refusal": 5500},
-                min_anchor_calls={"cryomap.em2mrc": 12000, "cryomap.mrc2em": 12000})
+                min_anchor_calls={"cryomap.em2mrc": 12000, "cryomap.mrc2em": 12000}, min_known={"int-min-negation-wraps": 200})
 
 
 # ---- call monitors ------------------------------------------------------------------------------
